@@ -225,6 +225,15 @@ func matrixCmd(args []string) error {
 					emit(g, g, g-d)
 				}
 			}
+			// the ends of the float32 range: subnormal components (the answer is zero to 18 places, not NaN),
+			// and components of 2^126 .. 2^127 whose sum overflows although no result does (RGB -> XYZ only:
+			// the inverse direction has coefficients above 3 and may overflow legitimately)
+			for _, t := range [][3]float32{{1, 1, 1}, {0, 1, 0}, {0.5, -0.25, 1.5}, {1.5, 1.5, 0.75}, {2, 2, 2}, {1, 1.75, 1.25}} {
+				const tiny, huge = 0x1p-140, 0x1p126
+				emit(t[0]*tiny, t[1]*tiny, t[2]*tiny)
+				x := sp.toXYZ(t[0]*huge, t[1]*huge, t[2]*huge)
+				sink.put(dy{"kind": "lin", "space": sp.name, "v": []dy{obsv(float64(t[0] * huge)), obsv(float64(t[1] * huge)), obsv(float64(t[2] * huge))}, "o": obs3(x.X, x.Y, x.Z)})
+			}
 			for i := 0; i < nseed; i++ {
 				a, b, c := seeded(), seeded(), seeded()
 				emit(a, b, c)
@@ -407,7 +416,23 @@ func matrixCmd(args []string) error {
 				}
 				return k
 			}
-			switch kind % 6 {
+			switch kind % 10 {
+			case 6, 7, 8: // dense, with exactly one pair of mirrored off-diagonal elements equal (not symmetric)
+				for r := 0; r < 3; r++ {
+					for c := 0; c < 3; c++ {
+						set(r, c, rk())
+					}
+				}
+				pr := [][2]int{{0, 1}, {0, 2}, {1, 2}}[kind%10-6]
+				k := rk()
+				set(pr[0], pr[1], k)
+				set(pr[1], pr[0], k)
+			case 9: // small integers: equal elements all over the place, seldom symmetric
+				for r := 0; r < 3; r++ {
+					for c := 0; c < 3; c++ {
+						set(r, c, (rng.Int63n(5)-2)<<q)
+					}
+				}
 			case 0: // non-uniform diagonal
 				set(0, 0, rk())
 				set(1, 1, rk())
@@ -523,6 +548,50 @@ func matrixCmd(args []string) error {
 					m3call(s, "Inverse")
 				}()
 				sink.put(dy{"kind": "singular", "a": si, "q": q, "panicked": pan})
+			}
+		}
+		// the same 27 patterns from columns whose pairwise products are NOT exact in float64 (decimal
+		// fractions, chromaticity-like triples): a repeated column is exactly singular whatever its entries
+		for _, pair := range [][2]matrix.Vector3{{{0.1, 0.7, 0.3}, {0.9, 0.2, 0.6}}, {{0.64, 0.33, 0.03}, {0.3, 0.6, 0.1}},
+			{{1.0 / 3, 2.0 / 3, 1.0 / 7}, {0.15, 0.06, 0.79}}, {{-0.8951, 0.7502, 0.0389}, {0.2664, 1.7135, -0.0685}}} {
+			for pat0 := 0; pat0 < 27; pat0++ {
+				var s matrix.Matrix3
+				pat := pat0
+				for c := 0; c < 3; c++ {
+					switch pat % 3 {
+					case 1:
+						s[c] = pair[0]
+					case 2:
+						s[c] = pair[1]
+					}
+					pat /= 3
+				}
+				const q56 = 58 // float64 values in [2^-6, 16) are multiples of 2^-58 (checked below)
+				si := make([][]dy, 3)
+				exact := true
+				for r := 0; r < 3; r++ {
+					si[r] = make([]dy, 3)
+					for c := 0; c < 3; c++ {
+						v := s[c][r] * (1 << q56)
+						if v != math.Trunc(v) || math.Abs(v) >= 1<<62 {
+							exact = false
+						}
+						si[r][c] = intEntry(int64(v))
+					}
+				}
+				if !exact {
+					continue // not representable at this scale: no event rather than a wrong one
+				}
+				pan := false
+				func() {
+					defer func() {
+						if recover() != nil {
+							pan = true
+						}
+					}()
+					m3call(s, "Inverse")
+				}()
+				sink.put(dy{"kind": "singular", "a": si, "q": q56, "panicked": pan})
 			}
 		}
 		done()
